@@ -4,8 +4,9 @@ package c04
 //   cd /verif/harness && go test ./checks/c04 -run '^$' -fuzz FuzzDecode -fuzztime 4m
 // The seed corpus is /verif/corpus/c04/seeds.txt (valid reference encodings, one per
 // (type, preset), written by `VERIF_C04_WRITE_CORPUS=1 go test ./checks/c04 -run TestCorpus`).
-// `go test -fuzz` cannot be started from inside a test, so the thorough tier of TestCheck runs
-// the same body (DifferentialBody) over rapid-mutated encodings instead.
+// `go test -fuzz` cannot be started from inside a test: the driver (/verif/check, thorough tier) starts
+// it from the compiled test binary after the rapid shards (-test.fuzz FuzzDecode, all cores, time-boxed);
+// TestCheck additionally runs the same body (DifferentialBody) over rapid-mutated encodings.
 
 import (
 	"bufio"
@@ -19,6 +20,7 @@ import (
 	"pgregory.net/rapid"
 
 	"zrntverif/checks/c04/reg"
+	"zrntverif/report"
 )
 
 type seed struct {
@@ -70,6 +72,7 @@ func FuzzDecode(f *testing.F) {
 			return
 		}
 		if fl := DifferentialBody(typ, preset, data); fl != nil {
+			report.FuzzFail("C04", &Case{Type: typ, Preset: preset, Mode: "bytes", Hex: hex.EncodeToString(data), Note: "native fuzz input"}, fl)
 			t.Fatalf("%s @%s: %s", typ, preset, fl.String())
 		}
 	})
